@@ -65,6 +65,9 @@ func runPathStreams(out *vOut, r *rand.Rand, n int) {
 		case 2:
 			from = p + "x"
 		}
+		if r.Intn(25) == 0 {
+			from = "command-line-arguments" // a package named by a list of files
+		}
 		req := "path importable " + eq(p) + " " + eq(from)
 		_, reply := guarded(func() (string, string) { return req, fmt.Sprint(b2i(importableFrom(p, from))) }, func() string { return req })
 		out.emit(req, reply)
